@@ -54,6 +54,9 @@ namespace cds {
         \p reset() function resets internal state of back-off strategy to initial state. It is required for some
         back-off strategies, for example, exponential back-off.
     */
+#ifdef KHIZMAX_LIBCDS_VERIF
+} namespace khizmax_libcds_verif { void spin_hint() noexcept; } namespace cds {   // verification hook: a spinning thread tells the deterministic scheduler
+#endif
     namespace backoff {
 
         /// Empty backoff strategy. Do nothing
@@ -78,6 +81,9 @@ namespace cds {
             //@cond
             void operator ()() const noexcept
             {
+#ifdef KHIZMAX_LIBCDS_VERIF
+                khizmax_libcds_verif::spin_hint(); return;
+#endif
                 std::this_thread::yield();
             }
 
@@ -104,6 +110,9 @@ namespace cds {
             //@cond
             void operator ()() const noexcept
             {
+#ifdef KHIZMAX_LIBCDS_VERIF
+                khizmax_libcds_verif::spin_hint();
+#endif
 #            ifdef CDS_backoff_hint_defined
                 platform::backoff_hint();
 #            endif
@@ -133,6 +142,9 @@ namespace cds {
         //@cond
             void operator ()() const noexcept
             {
+#ifdef KHIZMAX_LIBCDS_VERIF
+                khizmax_libcds_verif::spin_hint();
+#endif
 #           if defined(CDS_backoff_hint_defined)
                 platform::backoff_hint();
 #           elif defined(CDS_backoff_nop_defined)
@@ -251,6 +263,9 @@ namespace cds {
             //@cond
             void operator ()() noexcept(noexcept(std::declval<spin_backoff>()()) && noexcept(std::declval<yield_backoff>()()))
             {
+#ifdef KHIZMAX_LIBCDS_VERIF
+                khizmax_libcds_verif::spin_hint(); return;
+#endif
                 if ( m_nExpCur <= traits::upper_bound ) {
                     for ( size_t n = 0; n < m_nExpCur; ++n )
                         m_bkSpin();
@@ -263,6 +278,9 @@ namespace cds {
             template <typename Predicate>
             bool operator()( Predicate pr ) noexcept( noexcept(std::declval<Predicate>()()) && noexcept(std::declval<spin_backoff>()()) && noexcept(std::declval<yield_backoff>()()))
             {
+#ifdef KHIZMAX_LIBCDS_VERIF
+                if ( pr()) return true; khizmax_libcds_verif::spin_hint(); return false;
+#endif
                 if ( m_nExpCur <= traits::upper_bound ) {
                     for ( size_t n = 0; n < m_nExpCur; ++n ) {
                         if ( m_bkSpin(pr))
@@ -385,12 +403,18 @@ namespace cds {
             //@cond
             void operator()() const
             {
+#ifdef KHIZMAX_LIBCDS_VERIF
+                khizmax_libcds_verif::spin_hint(); return;
+#endif
                 std::this_thread::sleep_for( timeout );
             }
 
             template <typename Predicate>
             bool operator()(Predicate pr) const
             {
+#ifdef KHIZMAX_LIBCDS_VERIF
+                if ( pr()) return true; khizmax_libcds_verif::spin_hint(); return false;
+#endif
                 for ( unsigned int i = 0; i < traits::timeout; i += 2 ) {
                     if ( pr())
                         return true;
